@@ -151,12 +151,19 @@ class Exec(object):
         self.allocs, self.cellset, self.escaping, self.derived = S.classify_allocs(self.fn)
         self.wrap_types = set()
         self.track_init = False
+        self.track_own = False
+        self.own_types = set()
         self.check_wide_ovf = False
         if self.spec:
             for w in self.spec.opts.get('wrap', []):
                 self.wrap_types |= set(w.replace(',', ' ').split())
             if 'track' in self.spec.opts:
                 self.track_init = any('init' in x for x in self.spec.opts['track'])
+                for x_ in self.spec.opts['track']:
+                    ws = x_.replace(',', ' ').split()
+                    if ws and ws[0] == 'own':
+                        self.track_own = True
+                        self.own_types |= set('OWN:' + w for w in ws[1:])
             if 'ovf' in self.spec.opts:
                 self.check_wide_ovf = any('int' in x.split() for x in self.spec.opts['ovf'])
         self.old = None
@@ -224,6 +231,12 @@ class Exec(object):
         if getattr(self, 'heap_record', None) is not None:
             self.heap_record.add(name)
         h = st.heap.get(name)
+        if h is None and name.startswith('OWN:'):
+            h = constarr(arr(ARR_IB), constarr(ARR_IB, FALSE))
+            st.heap[name] = h
+            if self.old is not None and name not in self.old.heap:
+                self.old.heap[name] = h
+            return h
         if h is None and name.startswith('INIT:'):
             h = constarr(arr(ARR_IB), constarr(ARR_IB, TRUE))
             st.heap[name] = h
@@ -358,6 +371,7 @@ class Exec(object):
             name = self.hs_name(etid)
             h = self.heap_get(st, name, self.hs_sort(etid))
             inner = select(h, arr_)
+            self.own_check(st, etid, arr_, absidx, add(absidx, ONE))
             st.heap[name] = store(h, arr_, store(inner, absidx, self.scalar_term(v)))
             if self.track_init:
                 iname = 'INIT:' + self.elem_key(etid)
@@ -365,6 +379,25 @@ class Exec(object):
                 st.heap[iname] = store(ih, arr_, store(select(ih, arr_), absidx, TRUE))
             return
         self.obj_store(st, etid, self.elemaddr(arr_, absidx), v)
+
+    def own_check(self, st, etid, arr_, lo, hi, guard=None):
+        """memory handed over to a consumer (ghost OWN bits set by an effect) must never be written again"""
+        if not getattr(self, 'track_own', False) or not self.is_scalar(etid):
+            return
+        key = 'OWN:' + self.elem_key(etid)
+        if key not in self.own_types:
+            return
+        oh = self.heap_get(st, key, arr(ARR_IB))
+        if hi == add(lo, ONE):
+            c = not_(select(select(oh, arr_), lo))
+        else:
+            n = self.ctx.counter.get('q:ow', 0)
+            self.ctx.counter['q:ow'] = n + 1
+            k = const('ow?%d' % n, INT)
+            c = forall([k], implies(and_(le(lo, k), lt(k, hi)), not_(select(select(oh, arr_), k))), [select(select(oh, arr_), k)])
+        if guard is not None:
+            c = implies(guard, c)
+        self.oblige(st, 'own-write', self.cur_src_detail(), c, {'clause': 'memory already handed to the consumer is not written'}, {'C06'})
 
     def elemaddr(self, a, i):
         self.ctx.declare_fun('elem', (INT, INT), INT)
@@ -1045,6 +1078,11 @@ class Exec(object):
         a = self.ctx.fresh(prefix, INT)
         self.ctx.assume(eq(a, st.alloc))
         st.alloc = self.ctx.name('alloc', add(st.alloc, ONE))
+        if getattr(self, 'track_own', False):
+            # nothing in freshly allocated memory has been handed to a consumer yet
+            for key in self.own_types:
+                oh = self.heap_get(st, key, arr(ARR_IB))
+                self.ctx.assume(eq(select(oh, a), constarr(ARR_IB, FALSE)))
         return a
 
     # ------------------------------------------------------------------ value access by SSA operand
@@ -1062,7 +1100,7 @@ class Exec(object):
         if k == 'freevar':
             return st.regs['free:' + v['n']]
         if k == 'global':
-            gt = self.prog.globals[v['n']]['type']
+            gt = self.prog.globals[v['n']]['type'] if v['n'] in self.prog.globals else self.U(v['type'])['elem']
             g = self.ctx.declare_const('G:' + self.prog.short(v['n']), INT)
             if ('G', v['n']) not in self.ctx.assumptions:
                 self.ctx.assumptions.add(('G', v['n']))
